@@ -58,6 +58,8 @@ class CG:
         for ai, (pn, pt) in enumerate(f.params):
             if getattr(f, 'recursive', False) and ai == 0:
                 args.append(Lit(self.rng.randrange(0, 7), INT)); continue
+            if getattr(f, 'arity_extra', False) and ai == len(f.params) - 1 and self.rng.random() < .6:
+                args.append(self.expr(INT, vars_, 0, [])); self.hit('arity-extra-argument-converted'); continue
             if isinstance(pt, Sc):
                 # the static argument type equals the parameter type, so exactly this overload is selected
                 args.append(self.expr(pt, vars_, depth, [g for g in funcs if g is not f and not getattr(g, 'recursive', False)] if depth > 0 else []))
@@ -75,11 +77,23 @@ class CG:
         f.recursive = recursive
         loc = Var(self.fresh("t"), ret, 'local')
         scal = [v for v in vars_ if isinstance(v.ty, Sc)]
+        # a local nested aggregate: every activation (recursive, repeated, in a loop) must get fresh zeros, and what one
+        # activation writes into an inner element must not be seen by another
+        agg = None
+        if r.random() < .5:
+            agg = Var(self.fresh("w"), Arr(ret, r.choice([(2, 2), (2, 3), (3, 2)])), 'local')
+            ai, aj = r.randrange(agg.ty.dims[0]), r.randrange(agg.ty.dims[1])
+            agg_e = Index(Index(agg, Lit(ai, INT)), Lit(aj, INT))
+            self.hit('nested-aggregate-local')
         if recursive:
             a0 = vars_[0]
             base = Return(self.expr(ret, scal[1:] or [], 1, []) if len(scal) > 1 else _lit(r, ret))
             ss.append(If(Bin('<=', a0, Lit(0, INT)), base))
             ss.append(Decl(loc.name, ret, self.expr(ret, scal, 1, [])))
+            if agg is not None:
+                ss.append(Decl(agg.name, agg.ty, None))
+                ss.append(ExprS(Assign(loc, Bin('+', loc, agg_e))))                                   # fresh: reads 0
+                ss.append(ExprS(Assign(agg_e, Bin('+', a0 if a0.ty == ret else _lit(r, ret), _lit(r, ret)))))   # dirty it with a value of this activation
             def reccall(k):
                 return Call(f, [Bin('-', a0, Lit(k, INT))] + [self.expr(t, scal, 1, []) if isinstance(t, Sc) else self.vexpr(t, vars_) for _, t in params[1:]])
             rec = reccall(1)
@@ -90,10 +104,18 @@ class CG:
                 tail = Bin('+', tail, reccall(2)); self.hit('tree-recursion')
                 tail = Bin('+', tail, loc)
             if a0.ty == ret: tail = Bin('+', tail, a0)
+            if r.random() < .5:
+                # a value computed BEFORE the recursive call (left operand) is used after it returns
+                tail = Bin('+', Bin('*', loc, _lit(r, ret)), tail); self.hit('value-live-across-recursive-call')
+            if agg is not None: tail = Bin('+', tail, agg_e)               # own element after the inner activations returned
             ss.append(Return(tail))
             self.hit('recursion')
         else:
             ss.append(Decl(loc.name, ret, self.expr(ret, scal, 2, funcs)))
+            if agg is not None:
+                ss.append(Decl(agg.name, agg.ty, None))
+                ss.append(ExprS(Assign(loc, Bin('+', loc, agg_e))))              # fresh on every call: reads 0
+                ss.append(ExprS(Assign(agg_e, Bin('+', agg_e, _lit(r, ret)))))   # dirtied for a possible next call
             for v in vars_:
                 k = r.random()
                 if isinstance(v.ty, Sc) and k < .7:
@@ -134,6 +156,16 @@ class CG:
                 tys2[i] = r.choice(alt)
                 funcs.append(self.callee(name, list(zip(pnames, tys2)), ret, [g for g in funcs if g.name != name]))
                 self.hit('overload-same-names')
+        if r.random() < .5:
+            # overloads that differ in ARITY: name(a) / name(a, extra float) — the second is also called with an int as extra
+            # argument (implicit conversion), which must not make the shorter overload win
+            name = self.fresh("ar")
+            t0 = r.choice([INT, FLOAT]); ret0 = r.choice([INT, FLOAT])
+            p0 = self.fresh("a")
+            f1 = self.callee(name, [(p0, t0)], ret0, [])
+            f2 = self.callee(name, [(p0, t0), (self.fresh("a"), FLOAT)], ret0, [])
+            f2.arity_extra = True
+            funcs += [f1, f2]; self.hit('overload-arity')
         if self.o['recursion'] and r.random() < .6:
             ret = r.choice([INT, FLOAT])
             ps = [(self.fresh("n"), INT)] + [(self.fresh("a"), r.choice([INT, FLOAT])) for _ in range(r.randint(0, 2))]
@@ -211,6 +243,17 @@ class HG:
             st = Struct(self.fresh("St"), [(self.fresh("m"), INT), (self.fresh("m"), FLOAT)]); structs.append(st)
             n = self.fresh("gs"); globals_.append((n, st)); gv.append(Var(n, st, 'global')); self.hit('global-struct')
         funcs = []
+        self.lstruct = None
+        if self.o['aggregates'] and r.random() < .6:
+            self.lstruct = Struct(self.fresh("Sl"), [(self.fresh("m"), INT), (self.fresh("m"), Arr(INT, (2,)))]); structs.append(self.lstruct)
+        # a recursive helper whose activations keep a value across the inner call: n * 3 + rec(n - 1) + n
+        self.recf = None
+        if r.random() < .6:
+            pn = self.fresh("n"); pv = Var(pn, INT, 'arg', 0)
+            rf = Func(self.fresh("rec"), [(pn, INT)], INT, None, False)
+            rf.body = Block([If(Bin('<=', pv, Lit(0, INT)), Return(Lit(1, INT))),
+                             Return(Bin('+', Bin('+', Bin('*', pv, Lit(3, INT)), Call(rf, [Bin('-', pv, Lit(1, INT))])), pv))])
+            self.recf = rf; funcs.append(rf); self.hit('recursive-helper')
         def places(ty):
             out = []
             for v in gv:
@@ -240,6 +283,16 @@ class HG:
             loc = Var(self.fresh("c"), INT, 'local')
             ss.append(Decl(loc.name, INT, None))
             ss.append(ExprS(Assign(loc, Bin('+', loc, Lit(1, INT)))))
+            if self.o['aggregates'] and self.lstruct is not None and r.random() < .5:
+                # a local struct with an array member: every invocation must start from zeros
+                ls_ = Var(self.fresh("s"), self.lstruct, 'local')
+                ss.append(Decl(ls_.name, ls_.ty, None))
+                fe = Index(Member(ls_, self.lstruct.fields[1][0]), Lit(r.randrange(2), INT))
+                ss.append(ExprS(Assign(loc, Bin('+', loc, fe))))          # fresh member element (must be 0)
+                ss.append(ExprS(Assign(fe, Bin('+', fe, Lit(7, INT)))))   # dirtied in place
+                self.hit('local-struct-with-array-member')
+            if self.recf is not None and r.random() < .5:
+                ss.append(ExprS(Assign(loc, Bin('+', loc, Call(self.recf, [Lit(r.randrange(1, 5), INT)]))))); self.hit('recursive-call-in-history')
             if self.o['aggregates'] and r.random() < .5:
                 la = Var(self.fresh("t"), Arr(INT, (2, 2)), 'local')
                 ss.append(Decl(la.name, la.ty, None))
